@@ -933,11 +933,11 @@ def generate(repo, template, mode=None, isolate=False):
     nothing else in the unit calls it the rest is verified as usual and only that function's obligations are undecided; if something does, the unit does not compile
     and is undecided as before.
     Returns dict(text, origin[], functions[], types[], log[], clauses[], skipped[])"""
-    X.STR_CONST_NAMES.clear()
+    X.str_const_names().clear()
     items, meta = parse_template(template)
     for it_ in items:
         if it_[0] == 'strconsts':
-            X.STR_CONST_NAMES.update(it_[1]['names'])
+            X.str_const_names().update(it_[1]['names'])
     em = Emitter()
     functions = []
     types = []
@@ -1022,7 +1022,7 @@ def generate(repo, template, mode=None, isolate=False):
             types.append(r)
             continue
         if it[0] == 'strconsts':
-            X.STR_CONST_NAMES.update(it[1]['names'])
+            X.str_const_names().update(it[1]['names'])
             r = extract_strconsts(repo, it[1], it[2])
             em.emit_lines(r['lines'])
             types.append(r)
